@@ -441,3 +441,17 @@ func vStackingOrder() (n int, fails []string) {
 
 //@ bounded vStackingOrder NewStackingContext on every list of up to five child contexts with z-indexes in -2..2 (3 906 lists): negative ascending, zero in tree order, positive ascending, ties in tree order
 //@   props C16
+
+// C16, which boxes create a stacking context (CSS 2.1 §9.9.1, css-color-3 §3.2, css-transforms-1 §3): a positioned box
+// with a z-index other than auto, an opacity below 1, a transform or an overflow other than visible. A positioned
+// box with z-index auto is painted as a context of its own at its place in TREE ORDER among the child contexts
+// (it is inserted at the position the list had before its descendants were visited); a float that is not
+// positioned goes to the floats.
+//@ func NewStackingContextFromBox$1
+//@   props C16
+//@   modifies anything
+//@   unclaimed call-*-pre* "box and style accessors"
+//@   call NewStackingContextFromBox#1 assert[real-context] arg0 == box && arg2 == nil && ((style.GetPosition().String != "static" && style.GetZIndex().String != "auto") || style.GetOpacity() < 1 || len(style.GetTransform()) != 0 || style.GetOverflow() != "visible")
+//@   call NewStackingContextFromBox#2 assert[positioned-auto] arg0 == box && arg2 == childContexts && style.GetPosition().String != "static" && style.GetZIndex().String == "auto" && index == len(*childContexts)
+//@   call insertStackingContext#1 assert[tree-order] arg1 == index
+//@   call NewStackingContextFromBox#3 assert[float] arg0 == box && arg2 == childContexts && style.GetPosition().String == "static" && callresult(IsFloated, 1)
